@@ -151,10 +151,22 @@ def verus_phase(pid, P, tier, seed, t0):
             d.get('level') == 'error' and classify(d) is None and not d['message'].startswith('aborting') for d in r['diags']):
         # the source of some contracted items changed and the file does not compile with their proof hints (e.g. a hint
         # names a variable that no longer exists): retry with the body-level hints of the changed items dropped
-        text, line_map, em, entries = tool.generate(set(units), no_body_hints=set(drifted))
-        open(path, 'w').write(text)
-        r = run_verus(path, rlimit=P.get('rlimit', 60))
-        j = r['json']
+        # only the changed items in which the compile errors sit lose their hints first; if that is not enough, all changed items
+        culprits = set()
+        for d in r['diags']:
+            if d.get('level') == 'error' and classify(d) is None:
+                for sp in d.get('spans', []):
+                    meta = locate(line_map, sp['line_start'])
+                    if meta and meta['entry'] in drifted:
+                        culprits.add(meta['entry'])
+        for drop in ([culprits] if culprits and culprits != set(drifted) else []) + [set(drifted)]:
+            text, line_map, em, entries = tool.generate(set(units), no_body_hints=set(drop))
+            open(path, 'w').write(text)
+            r = run_verus(path, rlimit=P.get('rlimit', 60))
+            j = r['json']
+            if j is not None and not any(d.get('level') == 'error' and classify(d) is None and not d['message'].startswith('aborting')
+                                         for d in r['diags']):
+                break
     elif drifted and j is not None and not j['verification-results'].get('success') and em.lost:
         # a changed item kept some of its proof hints and does not verify: a kept hint may state something about the old
         # shape of the code that is no longer true although the contract still holds.  Try once without the body-level
